@@ -246,7 +246,7 @@ def r6(report, db, P, cg):
             rp, wp = S.run(rd), S.run(wr)
         except AnalysisError:
             continue                # decided (or refused) by R05.3
-        me_r, me_w = ('sym', rd.params[0]), ('sym', wr.params[0])
+        me_r, me_w = ('sym', rd.all_params[0]), ('sym', wr.all_params[0])
         # reader: what each stored field holds, to read its decisions as
         # decisions on fields
         guards = {'r': {}, 'w': {}}
@@ -335,7 +335,7 @@ def generic_shape(fi, side, S=None):
     setattr(self, name, type.read_with_context(stream, self.context)) /
     type.send_with_context(getattr(self, name), stream, self.context)."""
     from ..pathsum import struct, show, subterms
-    me, stream = ('sym', fi.params[0]), ('sym', fi.params[1])
+    me, stream = ('sym', fi.all_params[0]), ('sym', fi.all_params[1])
     ctx = ('attr', me, 'context')
     paths = [p for p in S.run(fi) if p.returns]
     if len(paths) != 1:
@@ -876,7 +876,7 @@ def r5(report, db, P, cg, classes, versions):
             if S5 is None:
                 S5 = report._s5 = shared.summariser(db, cg,
                                                     implicit_raises=False)
-            me5 = ('sym', rd.params[0])
+            me5 = ('sym', rd.all_params[0])
             for p5 in S5.run(rd):
                 for e5 in p5.flat(('store',)):
                     if _struct(e5.base) != me5:
@@ -927,7 +927,7 @@ def r5b(report, db, P, cg, classes, versions):
                 not db.is_subclass(fi.cls, P.packet_ci) or \
                 fi.cls is P.packet_ci or len(fi.params) < 2:
             continue
-        me, fld = ('sym', fi.params[0]), ('sym', fi.params[1])
+        me, fld = ('sym', fi.all_params[0]), ('sym', fi.all_params[1])
         # every registered class below the owner reaches this method, directly
         # or through the super() call of its own override
         users = [cv for cv in classes if db.is_subclass(cv.ci, fi.cls)]
